@@ -80,6 +80,10 @@ Findings on the tree as first read (all reproduced on the real code; witnesses i
   fixed 66aa20a  tensorproto-metadata-duplicated      (orchestrator, before this module existed)
   known          external-data-checksum-dropped       (no small repair: ExternalTensor has no slot for extra keys)
   The model describes the fixed code; the witnesses are ordinary supported corpus cases now.
+  Upstream fixes 5e4600e (nodes of nested graphs follow the model's IR-version gate: ser_graph passes irv down,
+  wf_graph's allow_dev now covers nested graphs) and 3a09e57 (a repeated initializer name: only the last tensor is
+  used — `last_only`, after all tensors are deserialized) landed after the proof was finished: model, wf, generator
+  and proofs (ProofsFuel/Depth/G2/G4/G14-G17) follow them.
   Upstream fixes 420823a / 5c8d56d (value_info without type/shape on an initializer is completed from the tensor;
   a shape without type is serialized) landed while this was built: model, norm ("value-info is added for
   initializers" now also completes an existing entry) and oracle follow them.
@@ -829,7 +833,8 @@ class Gen:
         self.meta(g.metadata_props, 0.3)
         if depth > 0:
             self.h(f"graph:nested@{depth}")
-            confs_here = ["c0", "c1"] if self.chance(0.3) else None      # nested graphs keep them at any version
+            # nested graphs follow the model's IR version (5e4600e): device configurations only at IR >= 11
+            confs_here = ["c0", "c1"] if (irv >= 11 and self.chance(0.3)) else None
         else:
             confs_here = confs
         ins, inits_only = [], []
@@ -1007,7 +1012,8 @@ class Gen:
 MUTATIONS = ["dup-metadata-key", "vinfo-names-input", "unresolved-input", "checksum", "function-input-vinfo",
              "quant-passthrough", "seq-no-elem", "map-type", "tensor-no-elem", "sparse-attr", "undefined-attr",
              "devconf-old-ir", "function-vinfo-old-ir", "dup-opset", "output-not-produced", "dup-attr",
-             "strings-not-utf8", "type-denotation-only", "empty-sharding-tensor", "dup-value-info"]
+             "strings-not-utf8", "type-denotation-only", "empty-sharding-tensor", "dup-value-info",
+             "devconf-old-ir-subgraph", "dup-initializer"]
 
 
 def mutate(rng, m, kind: str) -> bool:
@@ -1118,6 +1124,20 @@ def mutate(rng, m, kind: str) -> bool:
         d = g.node[0].device_configurations.add()
         d.configuration_id = "c0"
         d.sharding_spec.add()
+    elif kind == "devconf-old-ir-subgraph":
+        if m.ir_version >= 11:
+            return False
+        n = g.node.add(op_type="If", output=["sub_if_out"])
+        a = n.attribute.add(name="then_branch", type=onnx.AttributeProto.GRAPH)
+        inner = a.g.node.add(op_type="Relu", output=["inner_y"])
+        inner.device_configurations.add().configuration_id = "c0"
+    elif kind == "dup-initializer":
+        for dt, v in ((1, 1.0), (11, 2.0)):
+            t = g.initializer.add()
+            t.name = "dup_init"
+            t.data_type = dt
+            t.dims.append(1)
+            (t.float_data if dt == 1 else t.double_data).append(v)
     elif kind == "dup-value-info":
         outs = [o for n in g.node for o in n.output if o and o not in [v.name for v in g.output]]
         if not outs:
